@@ -7,6 +7,7 @@ From Verif Require Import P2P.Frame P2P.FrameProofs P2P.Handshake P2P.HandshakeP
   P2P.Inbound P2P.InboundProofs P2P.BlockId P2P.BlockIdProofs P2P.Stream P2P.StreamProofs
   P2P.BlockRecv P2P.BlockRecvProofs P2P.WireHS P2P.WireHSProofs P2P.StatusRaw P2P.StatusRawProofs
   P2P.Limits.
+From Verif Require P2P.ChainAdmit P2P.ChainAdmitProofs.
 Import ListNotations.
 Open Scope N_scope.
 
@@ -599,3 +600,38 @@ Theorem C18_max_block_message_fits : forall body_limit block_bytes,
   block_bytes + envelope <= max_payload_length.
 Proof. exact max_block_message_fits. Qed.
 Print Assumptions C18_max_block_message_fits.
+
+(** * Chain identifier of received blocks (chain/chainhandle.go addBlockInternal, resolveOrphan) *)
+
+(** For every arrival order (direct children, orphans resolved later, orphan chains): from a
+    node whose blocks are of the local chain, no block of another chain is ever connected,
+    becomes best, or even waits in the orphan pool. *)
+Theorem C18_foreign_chain_block_never_connected : forall st bs,
+  ChainAdmit.local_only st -> ChainAdmit.cs_orphans st = [] ->
+  let st' := ChainAdmit.run ChainAdmit.CheckBeforeOrphan st bs in
+  Forall (fun b => ChainAdmit.cb_foreign b = false) (ChainAdmit.cs_connected st') /\
+  ChainAdmit.cb_foreign (ChainAdmit.cs_best st') = false /\
+  Forall (fun b => ChainAdmit.cb_foreign b = false) (ChainAdmit.cs_orphans st').
+Proof. exact ChainAdmitProofs.foreign_chain_block_never_connected. Qed.
+Print Assumptions C18_foreign_chain_block_never_connected.
+
+(** ... and it is discarded without affecting what the node accepts later: the final state
+    is the one reached without the foreign blocks. *)
+Theorem C18_foreign_blocks_do_not_affect_later_acceptance : forall bs st,
+  ChainAdmit.run ChainAdmit.CheckBeforeOrphan st bs
+  = ChainAdmit.run ChainAdmit.CheckBeforeOrphan st (filter (fun b => negb (ChainAdmit.cb_foreign b)) bs).
+Proof. exact ChainAdmitProofs.foreign_blocks_do_not_affect_later_acceptance. Qed.
+Print Assumptions C18_foreign_blocks_do_not_affect_later_acceptance.
+
+(** The position of the test matters: with the chain-identifier test after the orphan branch a
+    foreign block arriving before its parent becomes the best block. *)
+Theorem C18_check_after_orphan_refuted :
+  let st' := ChainAdmit.run ChainAdmit.CheckAfterOrphan ChainAdmitProofs.st3
+               [ChainAdmitProofs.f5; ChainAdmitProofs.h4; ChainAdmitProofs.h5] in
+  ChainAdmit.local_only ChainAdmitProofs.st3 /\
+  ChainAdmit.cb_foreign (ChainAdmit.cs_best st') = true /\
+  In ChainAdmitProofs.f5 (ChainAdmit.cs_connected st') /\
+  ChainAdmit.cs_best (ChainAdmit.run ChainAdmit.CheckBeforeOrphan ChainAdmitProofs.st3
+                        [ChainAdmitProofs.f5; ChainAdmitProofs.h4; ChainAdmitProofs.h5]) = ChainAdmitProofs.h5.
+Proof. exact ChainAdmitProofs.check_after_orphan_refuted. Qed.
+Print Assumptions C18_check_after_orphan_refuted.
